@@ -299,6 +299,87 @@ Fixpoint gen_node (fuel : nat) (depth : nat) (context : list chain) (parent : op
       Ok (id, {| gs_pool := set_nth (gs_pool stf) idn nd; gs_rids := gs_rids stf; gs_tti := gs_tti stf |})
   end.
 
+(* ---- the same builder, structured for proofs: a recursive [gen_tree] producing an inductive tree,
+   followed by a preorder [flatten] that allocates node ids and temporary edge tags exactly as the
+   node pool of _generate_node does (DESIGN section 6: same observable output, checked on every run
+   against the implementation; [compile_pool] below keeps the pool version for cross-checking) ---- *)
+Inductive ptree := PNode (rules : list ident) (sign : list ident) (vs : vlist) (ps : plist)
+with vlist := VNil | VCons (v : bytes) (t : ptree) (r : vlist)
+with plist := PNil | PCons (tag : Z) (cons : list pcons) (t : ptree) (r : plist).
+
+Fixpoint vlist_of (l : list (bytes * ptree)) : vlist :=
+  match l with [] => VNil | (v, t) :: r => VCons v t (vlist_of r) end.
+Fixpoint plist_of (l : list (Z * list pcons * ptree)) : plist :=
+  match l with [] => PNil | (tag, cs, t) :: r => PCons tag cs t (plist_of r) end.
+
+Definition ended_at (depth : nat) (context : list chain) : list chain :=
+  filter (fun rc => (depth =? length (ch_name rc))%nat) context.
+Definition going_on (depth : nat) (context : list chain) : list chain :=
+  filter (fun rc => negb (depth =? length (ch_name rc))%nat) context.
+Definition v_moves (depth : nat) (ctx1 : list chain) : list bytes :=
+  isort bytes_leb (dedup bytes_eqb (flat_map (fun rc => match lit_at rc depth with Some v => [v] | None => [] end) ctx1)).
+Definition v_group (depth : nat) (ctx1 : list chain) (v : bytes) : list chain :=
+  filter (fun rc => match lit_at rc depth with Some w => bytes_eqb w v | None => false end) ctx1.
+Definition p_moves (depth : nat) (prev : list Z) (ctx1 : list chain) : list (Z * list pcons * str * chain) :=
+  flat_map (fun rc => match pat_at rc depth with
+                      | Some t => [(pattern_movement rc t prev, rc)]
+                      | None => [] end) ctx1.
+Definition p_keys (pms : list (Z * list pcons * str * chain)) : list str :=
+  isort str_leb (dedup str_eqb (map (fun pm => snd (fst pm)) pms)).
+Definition p_group (pms : list (Z * list pcons * str * chain)) (key : str) : list (Z * list pcons * str * chain) :=
+  filter (fun pm => str_eqb (snd (fst pm)) key) pms.
+
+Fixpoint gen_tree (fuel : nat) (depth : nat) (context : list chain) (prev : list Z) : res ptree :=
+  match fuel with
+  | O => Err EFuel
+  | S f =>
+      let ended := ended_at depth context in
+      let ctx1 := going_on depth context in
+      do vs <- rmap (fun v => do t <- gen_tree f (S depth) (v_group depth ctx1 v) prev ;; Ok (v, t)) (v_moves depth ctx1) ;;
+      let pms := p_moves depth prev ctx1 in
+      do ps <- rmap (fun key => match p_group pms key with
+                                | [] => Err (EOther 9)
+                                | (pm :: _) as grp =>
+                                    let tag := fst (fst (fst pm)) in
+                                    do t <- gen_tree f (S depth) (map snd grp) (tag :: prev) ;;
+                                    Ok (tag, snd (fst (fst pm)), t)
+                                end) (p_keys pms) ;;
+      Ok (PNode (map ch_id ended) (flat_map ch_sign ended) (vlist_of vs) (plist_of ps))
+  end.
+
+(* preorder numbering: this node gets [id], its subtrees the ids after it; a temporary edge gets the
+   next temporary tag before its subtree is numbered *)
+Fixpoint flatten (t : ptree) (parent : option N) (id : N) (tti : N) {struct t} : list gnode * N :=
+  match t with
+  | PNode rules sign vs ps =>
+      let '(ves, sub1, nid1, tti1) := flatten_vs vs id (id + 1) tti in
+      let '(pes, sub2, nid2, tti2) := flatten_ps ps id nid1 tti1 in
+      ({| g_parent := parent; g_rule := rules; g_vedges := ves; g_pedges := pes; g_sign := sign |} :: sub1 ++ sub2, tti2)
+  end
+with flatten_vs (l : vlist) (src : N) (nid : N) (tti : N) {struct l} : list vedge * list gnode * N * N :=
+  match l with
+  | VNil => ([], [], nid, tti)
+  | VCons v c r =>
+      let '(sub, tti') := flatten c (Some src) nid tti in
+      let '(es, subs, nid', tti'') := flatten_vs r src (nid + N.of_nat (length sub)) tti' in
+      ({| ve_dest := Some nid; ve_value := Some v |} :: es, sub ++ subs, nid', tti'')
+  end
+with flatten_ps (l : plist) (src : N) (nid : N) (tti : N) {struct l} : list pedge * list gnode * N * N :=
+  match l with
+  | PNil => ([], [], nid, tti)
+  | PCons tag cs c r =>
+      let '(etag, tti0) := if (0 <=? tag)%Z then (Z.to_N tag, tti) else (tti + 1, tti + 1) in
+      let '(sub, tti') := flatten c (Some src) nid tti0 in
+      let '(es, subs, nid', tti'') := flatten_ps r src (nid + N.of_nat (length sub)) tti' in
+      ({| pe_dest := Some nid; pe_tag := Some etag; pe_cons := cs |} :: es, sub ++ subs, nid', tti'')
+  end.
+
+(* rule_node_ids: for every node in id order, for every rule name ending there *)
+Definition rids_of (pool : list gnode) : list (ident * list N) :=
+  snd (fold_left (fun (s : N * list (ident * list N)) g =>
+                    (fst s + 1, fold_left (fun r rid => rids_add r rid (fst s)) (g_rule g) (snd s)))
+                 pool (0, [])).
+
 (* ---- _fix_signing_references --------------------------------------------------------------------- *)
 Definition fix_signing (rids : list (ident * list N)) (i : nat) (g : gnode) : res node :=
   do sc <- rfold (fun acc rid => match al_get ident_eqb rids rid with
@@ -324,15 +405,30 @@ Definition sort_by_key {V} (l : list (ident * V)) : list (ident * V) := fold_rig
 
 Definition max_chain_len (l : list chain) : nat := fold_left (fun a c => Nat.max a (length (ch_name c))) l O.
 
-Definition compile (rules0 : lvsfile) : res lvsmodel :=
+Definition chains_of (rules0 : lvsfile) : res (list chain * numst) :=
   do sr <- sort_rule_references rules0 ;;
   do nr <- gen_pattern_numbers (fst sr) ;;
   let '(nrules, st) := nr in
   do rep <- replicate_rules nrules (ns_next_temp st) ;;
-  let chains := concat (map snd (sort_by_key rep)) in
-  let npc := N.of_nat (length (ns_named st)) in
-  do g <- gen_node (S (max_chain_len chains)) 0 chains None []
-            {| gs_pool := []; gs_rids := []; gs_tti := npc |} ;;
-  do nodes <- fix_all (gs_rids (snd g)) 0 (gs_pool (snd g)) ;;
-  Ok {| m_version := Some LVS_VERSION; m_start := Some (fst g); m_npc := Some npc; m_nodes := nodes;
+  Ok (concat (map snd (sort_by_key rep)), st).
+
+Definition model_of (st : numst) (pool : list gnode) (rids : list (ident * list N)) (start : N) : res lvsmodel :=
+  do nodes <- fix_all rids 0 pool ;;
+  Ok {| m_version := Some LVS_VERSION; m_start := Some start; m_npc := Some (N.of_nat (length (ns_named st)));
+        m_nodes := nodes;
         m_symbols := map (fun p => {| ts_tag := Some (snd p); ts_ident := Some (fst p) |}) (ns_named st) |}.
+
+Definition compile (rules0 : lvsfile) : res lvsmodel :=
+  do cs <- chains_of rules0 ;;
+  let '(chains, st) := cs in
+  do t <- gen_tree (S (max_chain_len chains)) 0 chains [] ;;
+  let pool := fst (flatten t None 0 (N.of_nat (length (ns_named st)))) in
+  model_of st pool (rids_of pool) 0.
+
+(* the node-pool formulation of _generate_node (same output; cross-checked by the harness) *)
+Definition compile_pool (rules0 : lvsfile) : res lvsmodel :=
+  do cs <- chains_of rules0 ;;
+  let '(chains, st) := cs in
+  do g <- gen_node (S (max_chain_len chains)) 0 chains None []
+            {| gs_pool := []; gs_rids := []; gs_tti := N.of_nat (length (ns_named st)) |} ;;
+  model_of st (gs_pool (snd g)) (gs_rids (snd g)) (fst g).
